@@ -3,5 +3,9 @@ EXTENDS CMObject, Json
 MCKeyNames == <<"none">>
 MCDegrees == {"dA", "dB"}
 NoHistView == <<Ldeg, Ideg, cc, hamsys, pcm, deg0, last>>
+\* exhaustive verification runs use several workers: TLC's parallel breadth-first search does not reach a
+\* state first through its SHORTEST history, so with a history-length constraint the history length must be
+\* part of the state identity (otherwise which successors are cut off depends on the schedule)
+DepthView == <<NoHistView, Len(hist)>>
 EmitState == (Len(hist) <= MaxLen) => PrintT(ToJson(hist))
 =============================================================================
